@@ -73,6 +73,8 @@ def check(run):
         C01.conserve(R)
         from . import C05
         C05.strict(R)            # invalid UTF-8 in text / close reason: the strict whole-payload decode is the check site
+        C01.join(R)              # ... of the whole message: no arm decodes fragment by fragment (a lenient incremental decoder
+                                 # never reports a sequence cut off by the end of the message)
     order(R)
     opcodes(R)
     closecodes(R)
